@@ -370,6 +370,30 @@ func main() {
 				panel = append(panel, pe)
 				res.Counters["shared-relation-lists-for-unsafe-queries"]++
 			}
+			if phase%2 == 1 {
+				// in every other phase the first thing all goroutines do is the first query of a fresh *registered* filter
+				// (arity cycling 0..8): nothing they passed through before orders their accesses to it
+				a := (c + phase) % 9
+				spec := &eng.FSpec{Kind: eng.FZero}
+				if a > 0 {
+					var cands []int
+					for ti, t := range typed.Tuples {
+						if len(t.Comps) == a && t.NewFilter != nil {
+							cands = append(cands, ti)
+						}
+					}
+					spec = &eng.FSpec{Kind: eng.FTyped, Tuple: cands[(c+phase)%len(cands)]}
+				}
+				pe := panelEntry{spec: spec, tf: d.BuildTyped(spec), cached: true}
+				pe.tf.Register()
+				expect := m.Select(spec, nil)
+				for gi := 0; gi < G; gi++ {
+					s := step{pi: len(panel), spec: spec, tf: pe.tf, expect: expect, mode: gi % 5}
+					plans[gi] = append([]step{s}, plans[gi]...)
+				}
+				panel = append(panel, pe)
+				res.Counters["registered-filters-queried-first-by-all-goroutines"]++
+			}
 			holdAll := phase == 1 && G == 64 // all 64 queries open at the same time
 			start := make(chan struct{})
 			var wg, opened sync.WaitGroup
